@@ -166,6 +166,12 @@ func computedIn(v ssa.Value, blocks map[*ssa.BasicBlock]bool) bool {
 		if _, isAlloc := in.(*ssa.Alloc); isAlloc {
 			continue
 		}
+		// the load of a captured parameter's cell is the parameter: the same in every iteration
+		if ld, isLd := in.(*ssa.UnOp); isLd && ld.Op == token.MUL {
+			if al, isAl := ld.X.(*ssa.Alloc); isAl && paramCell(al) != nil {
+				continue
+			}
+		}
 		if !blocks[in.Block()] {
 			return false
 		}
@@ -460,4 +466,60 @@ func errResultP(r *pathRet) (ssa.Value, bool) {
 		return nil, false
 	}
 	return r.Results[n-1], true
+}
+
+// calleeOf resolves the function a call runs: the static callee, looking through the wrapper
+// go/ssa synthesises for a bound method value (`f := x.m; f()` calls m with receiver x).
+func calleeOf(cc *ssa.CallCommon) *ssa.Function {
+	f := cc.StaticCallee()
+	if m, _ := boundMethod(cc); m != nil {
+		return m
+	}
+	return f
+}
+
+// boundMethod: the call goes through a bound method wrapper; returns the method and the bound
+// receiver.
+func boundMethod(cc *ssa.CallCommon) (*ssa.Function, ssa.Value) {
+	f := cc.StaticCallee()
+	if f == nil || !strings.HasPrefix(f.Synthetic, "bound method wrapper") || theWorld == nil {
+		return nil, nil
+	}
+	mc, ok := cc.Value.(*ssa.MakeClosure)
+	if !ok || len(mc.Bindings) != 1 {
+		return nil, nil
+	}
+	fo, ok := f.Object().(*types.Func)
+	if !ok {
+		return nil, nil
+	}
+	m := theWorld.Prog.FuncValue(fo)
+	if m == nil {
+		return nil, nil
+	}
+	return m, mc.Bindings[0]
+}
+
+// fullArgs returns the arguments of a call with the receiver first, also for a call through a
+// bound method value (where go/ssa keeps the receiver in the closure).
+func fullArgs(cc *ssa.CallCommon) []ssa.Value {
+	if m, recv := boundMethod(cc); m != nil {
+		return append([]ssa.Value{recv}, cc.Args...)
+	}
+	return cc.Args
+}
+
+// isParamValue: v is the parameter, or the load of the cell go/ssa gives a parameter that a
+// closure captures (paramCell), possibly under value-preserving wrappers.
+func isParamValue(v ssa.Value, par *ssa.Parameter) bool {
+	v = stripConv(v)
+	if v == ssa.Value(par) {
+		return true
+	}
+	if ld, ok := v.(*ssa.UnOp); ok && ld.Op == token.MUL {
+		if al, ok := ld.X.(*ssa.Alloc); ok && paramCell(al) == par {
+			return true
+		}
+	}
+	return false
 }
